@@ -248,7 +248,7 @@ RAMP_EXT = (2, 3, 4)
 
 
 def gen(t, mode="ramp", c=None, dynext=None, level=0):
-    """Generate a value tree.  mode: ramp | extreme | minimal | alt (a second ramp with other numbers, same shapes)
+    """Generate a value tree.  mode: ramp | long (ramp with multi-slot strings) | extreme | minimal | alt (a second ramp with other numbers, same shapes)
     | null (references null, otherwise ramp)"""
     if c is None:
         c = Ctr(100 if mode == "alt" else 0)
@@ -266,6 +266,8 @@ def gen(t, mode="ramp", c=None, dynext=None, level=0):
             return EXT_STR[n % len(EXT_STR)]
         if mode == "minimal":
             return ""
+        if mode == "long":  # several slots each, so that they can shrink across slot boundaries
+            return "L%d" % n + "y" * (17 + n % 9)
         return "s%d" % n + "x" * (n % 7)
     if k == "St":
         return {n: gen(ft, mode, c, dynext, level + 1) for n, ft in t[1]}
